@@ -3,6 +3,9 @@ import vlib
 from checks import search_common as sc
 
 
+META = {'text': 'TLC exhaustively explores the implementation-shaped Searcher model (roll buffer, slow/fast/inverted paths, context machinery) against the GrepModel reference for all bounded inputs, configurations and read histories; every terminal state is replayed on the real grep-searcher and must equal the reference stream (order, uniqueness, windows, separators, numbers, offsets, byte count).', 'note': "Matcher abstracted to 'line contains m'; bounds in specs/search/C03_*.cfg; real code observed through the public Sink/Read API plus hook H1 (buffer capacity).", 'technique': 'TLA+ refinement (Searcher refines GrepModel) model-checked with TLC + scenario replay into grep-searcher'}
+
+
 def main(tier):
     chk = vlib.Check("C03", tier)
     chk.rule = ("TLC enumerates every input of <= N lines over the bodies of the cfg x every (A,B) x invert x passthru x "
